@@ -73,6 +73,7 @@ class EntryInfo:
     def __init__(self, ctx):
         from ..locks import classify_call
         self.db = db = _db(ctx)
+        self.ctx = ctx
         self.crate = ctx.bin
         self.entry = E0 = db.analysis_entry()
         if E0 is None:
@@ -166,7 +167,9 @@ class EntryInfo:
         """the operand is the (canonical) path of the file being analysed: a canonicalisation result computed in the entry,
         or the entry's own path parameter (canonicalised by the wrappers)"""
         o = self.db.origins.of_operand(E, op)
-        ok = lambda x: (x[0] == "call" and (x[2].endswith("::get_canonical_path") or x[2].endswith("Path::canonicalize")) and not x[3]) \
+        from .. import roles
+        canon = roles.canonicalisers(self.ctx)
+        ok = lambda x: (x[0] == "call" and (x[2] in canon or x[2].endswith("Path::canonicalize")) and not x[3]) \
             or (x[0] == "param" and not x[3])
         return bool(o) and all(ok(x) for x in o)
 
